@@ -83,6 +83,16 @@ def check_c03(s, n, cols, bonds, orb=None):
     s2 = tucan_of(g2)
     if s2 != s:
         return f"not a fixed point: tucan(parse(s)) = {s2!r}"
+    # the caller owns the parsed graph: scribble on it; a second parse must still reconstruct the molecule
+    from .c14_workload import scribble
+
+    scribble(g2)
+    try:
+        n3, cols3, bonds3 = encode_graph(graph_from_tucan(s))
+    except Exception as ex:
+        return f"second parse of the same string fails after the caller modified the first result: {type(ex).__name__}"
+    if (n3, cols3, bonds3) != (n2, cols2, bonds2):
+        return "second parse of the same string differs after the caller modified the first result"
     return None
 
 
